@@ -2,6 +2,7 @@ package ledger
 
 import (
 	"github.com/cosmos/iavl"
+	"github.com/rigochain/rigo-go/libs/verifhook"
 	"github.com/rigochain/rigo-go/types/xerrors"
 	tmdb "github.com/tendermint/tm-db"
 	"sort"
@@ -193,6 +194,7 @@ func (ledger *FinalityLedger[T]) Commit() ([]byte, int64, xerrors.XError) {
 	if r1, r2, err := ledger.tree.SaveVersion(); err != nil {
 		return r1, r2, xerrors.From(err)
 	} else {
+		verifhook.DurableWritten("ledger")
 		ledger.SimpleLedger.cachedItems.reset()
 		ledger.finalityItems.refresh()
 		return r1, r2, nil
